@@ -130,6 +130,21 @@ func Tag(k, v string) {}
 // ("" = anywhere in the package); "send" = channel sends in `where` to a struct field named `what`.
 func AssertStatic(kind, where, what string, expected int, label string) {}
 
+// Threads: under the engine, body is the code n concurrent goroutines run; its shared-memory
+// accesses are recorded and every interleaving is encoded for the solver, which is asked whether
+// two threads can return the same value (and whether two accesses race). Natively the bodies
+// run one after the other and must return pairwise different values.
+func Threads(n int, body func() uint32, label string) {
+	seen := map[uint32]bool{}
+	for i := 0; i < n; i++ {
+		v := body()
+		if seen[v] {
+			panic(assertFail{label})
+		}
+		seen[v] = true
+	}
+}
+
 // Note records informational context for findings (not part of the finding key).
 func Note(k, v string) {}
 
